@@ -753,4 +753,20 @@ func c04LazyDecodeAs(r *Run, rule string) {
 		})
 	}
 	r.Floor(rule, "stores of DataMessage.dec", nLit, 4)
+	// and no method of an existing message manufactures a second decode state for the same body by
+	// going back through one of the constructors
+	nM := 0
+	for _, fn := range w.FnsInPkg("hsms") {
+		recv := fn.Signature.Recv()
+		if !w.IsProd(fn) || recv == nil || !typeIs(recv.Type(), modPath+"/hsms", "DataMessage") {
+			continue
+		}
+		nM++
+		for _, c := range callsIn(fn, func(cl Callee) bool {
+			return cl.Static != nil && fnPkgPath(cl.Static) == modPath+"/hsms" && (cl.Static.Name() == "NewDataMessage" || cl.Static.Name() == "newRawFrameDataMessage" || cl.Static.Name() == "NewDataMessageFromHeader")
+		}) {
+			r.Fail(rule, w.FnName(fn)+" derives a message through "+calleeOf(c).Static.Name(), c.Pos(), "a message derived from an existing one must share its decode state; a constructor gives the copy a decode state of its own, so the body is decoded again and holders see different results")
+		}
+	}
+	r.Floor(rule, "DataMessage methods examined for re-construction", nM, 10)
 }
